@@ -74,8 +74,8 @@ PROPS = {
         label_re=r'^C(09|05|07|06|13|10)',
         explanation='element-wise operations verified (loop invariant) against overlay(second, top, offset, op) of the README; GET/SET clamp; ONES/ZEROS/LENGTH/APPEND/EMPTY/FROMINT/EQUAL/ROTATE/CONTAINS/SET*INSERT/NOT rows; '
                     'through the R9 desugaring of slice-iterator adapters: BOOLVECTOR.COUNT = number of TRUE elements, INTVECTOR.SUM = the wrapping sum, INTVECTOR.MEAN = that sum / length (f32), '
-                    'INTVECTOR.BOOLINDEX = the ascending indices of the TRUE elements, FLOATVECTOR.*SCALAR = element-wise product, INTVECTOR.REMOVE = the other elements in order (Vec::retain), FLOATVECTOR.SUM = the left-to-right f32 sum from std\'s empty sum (R14; cross-checked bit for bit by the bounded Kani harness b_c09_float_vector_sum), FLOATVECTOR.MEAN = that sum / length, INTVECTOR.SORT*ASC / DESC = an ascending / descending permutation (multiset equal) of the top vector (assumed contract of slice::sort + the i32 axiom), BOOLVECTOR / FLOATVECTOR.SORT*ASC / DESC = a permutation ordered by the comparator (R13: the two sort_by call forms are wrappers with assumed contracts; false before true; f32: the uninterpreted total preorder of total_cmp), BoolVector::from_int_array (no longer trusted); registry binding is part of each unit',
-        not_decided=[VEC_EXTERNAL_NOTE, 'float element values are uninterpreted (which operation on which elements is proved)',
+                    'INTVECTOR.BOOLINDEX = the ascending indices of the TRUE elements, FLOATVECTOR.*SCALAR = element-wise product, INTVECTOR.REMOVE = the other elements in order (Vec::retain), FLOATVECTOR.SUM = the left-to-right f32 sum from std\'s empty sum (R14; cross-checked bit for bit by the bounded Kani harness b_c09_float_vector_sum), FLOATVECTOR.MEAN = that sum / length, INTVECTOR.SORT*ASC / DESC = an ascending / descending permutation (multiset equal) of the top vector (assumed contract of slice::sort + the i32 axiom), BOOLVECTOR / FLOATVECTOR.SORT*ASC / DESC = a permutation ordered by the comparator (R13: the two sort_by call forms are wrappers with assumed contracts; false before true; f32: the uninterpreted total preorder of total_cmp), BoolVector::from_int_array (no longer trusted); registry binding is part of each unit; ' + VEC_EXTERNAL_NOTE,
+        not_decided=['float element values are uninterpreted (which operation on which elements is proved)',
                      'the real std sort / retain bodies did not finish in CBMC within 400 s even for length <= 2, so the R9 / T-std assumptions about them have no bounded cross-check'],
         thorough=True,
     ),
